@@ -9,7 +9,9 @@ def pool():
     N = []
     for neg, m, s in [(0,0,0),(0,1,0),(1,1,0),(0,2,0),(0,5,1),(0,110,2),(0,11,1),(1,37,1),(0,63,0),(0,64,0),(0,30,1),
                       (0,2**63-1,0),(1,2**63,0),(0,2**63,0),(0,2**96-1,0),(1,2**96-1,0),(0,1,28),(0,10**28-1,0),(0,7,0),(0,3,0),
-                      (0,100,2),(0,15,1),(1,10,0),(0,10,0)]:
+                      (0,100,2),(0,15,1),(1,10,0),(0,10,0),
+                      # width boundaries a cast could truncate at: 2^31, 2^32, 2^32+3, 2^33+1, 65
+                      (0,2**31,0),(0,2**32,0),(0,2**32+3,0),(0,2**33+1,0),(0,65,0)]:
         N.append(mk_num(neg, m, s))
     S = ["s()", "s(%s)" % hx("a"), "s(%s)" % hx("ab"), "s(%s)" % hx("é€"), "s(%s)" % hx("abé"), "s(%s)" % hx("b"),
          # strings that look like values of another type: an operand of the wrong type is an error, never a coerced value
